@@ -4,7 +4,7 @@
    INDEXOVERFLOW_MARGIN, CHAINLOG_MAX, WINDOWLOG_MAX, ...) are regenerated from the current headers. *)
 From Coq Require Import ZArith List Bool.
 From ZV.Index Require Import Window Reduce Overflow History MtJobs
-     OverflowProofs ReduceProofs CorrectProofs WindowProofs HistoryProofs TableProofs MtJobsProofs MtSerialProofs.
+     OverflowProofs ReduceProofs CorrectProofs WindowProofs HistoryProofs TableProofs MtJobsProofs MtSerialProofs AttachProofs.
 Import ListNotations.
 Local Open Scope Z_scope.
 
@@ -489,3 +489,60 @@ Example mt_serial_frame_example :
   Forall job_ok jobs /\ mt_serial_jobs_ok false s0 27 jobs = true /\
   nbOvf (ldm_window (mt_serial_jobs false s0 27 jobs)) = 1.
 Proof. exact mt_serial_frame_example_lemma. Qed.
+
+(* 22. R3.  An attached dictionary stays adjacent to the prefix.  The dictionary-aware block compressors translate the
+   indices of an attached CDict with dictIndexDelta = window.dictLimit - dictEnd: they assume that the dictionary ends
+   exactly where the prefix of the window starts, i.e. dictMatchState != NULL -> loadedDictEnd == window.dictLimit
+   (loadedDictEnd is the index at which ZSTD_resetCCtx_byAttachingCDict attached it).  For EVERY history of operations
+   (begin / dictionary load / attach / copy / frame-mode continue with any block cutting / block mode / arbitrary finder
+   writes), in both builds, from any state that satisfies it (a new context does), the property holds after every
+   operation.  Only side condition: a CDict is copied right after the reset of the match state (nothing attached).
+   Frame mode owes it to ZSTD_checkDictValidity in every block, block mode to the test added by /repo 00d59f3
+   (finding C15-block-mode-attached-cdict-survives-noncontiguous-input). *)
+Theorem attached_dict_stays_adjacent :
+  forall (freq : bool) (ops : list op) (h : hstate),
+    AInv h -> hist_okA freq h ops ->
+    let ms := h_ms (run freq h ops) in
+    ms_dms ms = true -> ms_loadedDictEnd ms = dictLimit (ms_window ms).
+Proof. exact attached_dict_adjacent_lemma. Qed.
+Print Assumptions attached_dict_stays_adjacent.
+
+Theorem new_context_attach_invariant : forall p, AInv (h_init p).
+Proof. exact AInv_init. Qed.
+Print Assumptions new_context_attach_invariant.
+
+(* in a dictionary-aware mode (no extDict, dictionary attached) the prefix starts at the attach point *)
+Theorem attach_invariant_meaning :
+  forall h, AInv h ->
+    let ms := h_ms h in
+    window_hasExtDict (ms_window ms) = false -> ms_dms ms = true ->
+    dictLimit (ms_window ms) = ms_loadedDictEnd ms.
+Proof. exact AInv_meaning. Qed.
+Print Assumptions attach_invariant_meaning.
+
+(* 23. R3.  ... and the test of 00d59f3 is necessary: the block-mode step without it (the code before the repair),
+   after begin + attach of a 4096-byte CDict + a block of 1000 bytes, then a block of 2000 bytes at the SAME address
+   (input buffer re-used), leaves the dictionary attached, no extDict, with the prefix starting at index 5098 while the
+   dictionary was attached at 4098: ZSTD_dictMatchState mode with every dictionary offset 1000 too short (the decoder
+   has the first block in between).  The step of the current code detaches it and leaves the same window. *)
+Theorem block_mode_needs_dict_check_refuted :
+  let p := mkCParams 13 13 14 2 false in
+  let h0 := run false (h_init p) [OpBegin p 0 false true 100 100 0 None; OpAttach 4098 2; OpBlockMode 1000000 1000] in
+  let bad := step_blockmode_unchecked false h0 1000000 2000 in
+  let good := step false h0 (OpBlockMode 1000000 2000) in
+  AInv h0 /\
+  ms_dms (h_ms bad) = true /\ window_hasExtDict (ms_window (h_ms bad)) = false /\
+  ms_loadedDictEnd (h_ms bad) = 4098 /\ dictLimit (ms_window (h_ms bad)) = 5098 /\ ~ AInv bad /\
+  ms_dms (h_ms good) = false /\ ms_window (h_ms good) = ms_window (h_ms bad).
+Proof. exact block_mode_without_check_refuted. Qed.
+Print Assumptions block_mode_needs_dict_check_refuted.
+
+(* the hypotheses of 22 are satisfiable: a history with an attach, frame-mode and block-mode steps *)
+Example attached_dict_history_example :
+  let p := mkCParams 13 13 14 2 false in
+  let ops := [OpBegin p 0 false true 100 100 0 None; OpAttach 4098 2; OpContinue 1000000 [1000; 500];
+              OpBlockMode 1001500 700; OpBlockMode 2000000 64] in
+  AInv (h_init p) /\ hist_okA false (h_init p) ops /\
+  ms_dms (h_ms (run false (h_init p) (firstn 4 ops))) = true /\
+  ms_dms (h_ms (run false (h_init p) ops)) = false.
+Proof. exact attached_dict_history_example_lemma. Qed.
